@@ -37,6 +37,8 @@ CLAIMS = {
          "bytes of counters per block (from rustc's layouts) over the block size equal the documented overheads; Select9 inventory sizes; Elias-Fano l and high/low sizes follow the documented formula on integers; functions size l from ceil(c*max shard) with l >= 1 and c within 1.23 / 1.135 (known finding for the unsharded logic); packed vectors allocate ceil(len*w/BITS) words. mem_size itself and rounding for tiny inputs are not decided."),
  "C09": ("writer/reader table agreement for the VByte code, block-protocol agreement between builder and decoders, iterator start protocol", "5 C09",
          "encode_int/decode_int agree per code length on threshold, offset, prefix, mask and byte positions (thresholds = cumulative 128^k); builder and the three decoders use the same block predicate, NUL termination and truncate-by-rear-length; the in-block scan is clamped to the strings present; is_sorted is cleared exactly on a descent (length tie-break included) and index_of dispatches on it; lenders starting at len are exhausted. Byte-string comparison routines are not decided on all inputs."),
+ "C18": ("sibling agreement (online/offline store, file/memory iterator) and formula rules over the typed HIR", "5 C18",
+         "both try_push count the pair once per table using the high bits with the matching mask; both into_shard_store aggregate sizes over chunks of 2^(max - shard bits) under the asserted bound; both shard iterators aggregate/split by the same powers of two, route by the high bits minus the bucket's base, advance both cursors and destroy buckets only when not borrowed; shard() and Sig::high_bits take the same bits. Multiset preservation as such is not decided."),
  "C12": ("unsafe-site census with guard dominance and a table of construction invariants", "5 C12",
          "every unsafe call in a safe function is discharged by dominating facts or rests on a tabled construction invariant; unchecked-precondition functions are unsafe fn; iterator start protocol; universe guard. The construction invariants themselves are assumptions."),
 }
@@ -45,7 +47,7 @@ NA = {
  "C15": "serialization round trip lives in epserde's generated code and run-time bytes; no necessary structural clause in sux's source (DESIGN 7)",
  "C19": "solver correctness over all GF(2) systems has no guard/pairing/agreement clause; needs symbolic execution or proof (DESIGN 7)",
 }
-PENDING = {k: 'check under construction in this session (rules designed in DESIGN.md 5, not yet registered)' for k in ['C07','C08','C09','C10','C11','C13','C14','C16','C17','C18','C20']}
+PENDING = {}
 
 def main():
     checks = []
